@@ -32,8 +32,8 @@ func cmdDomains(args []string) int {
 		rounds = 12
 	}
 	var allFiles []string
-	var monFail []string
 	stats := map[string]int{}
+	monFail := realConnectionSources(ctx, stats)
 	idx := map[string]string{}
 	distinct := map[string]bool{}
 	var samples []string
